@@ -53,7 +53,10 @@ def nid(node) -> int:
 
 def coq_rt(node, U) -> str:
     # compact node term: the filter model reads only the data object's identity and the data_id
-    return (f"(Nd {nid(node)} {H.z(U.info(node._data)['obj'])} {H.coq_did(node._data_id)} "
+    kind = getattr(node, "kind", None)
+    head = "Nd" if kind is None else "Ndk"
+    ktxt = "" if kind is None else f" {H.coq_text(kind)}"
+    return (f"({head} {nid(node)} {H.z(U.info(node._data)['obj'])} {H.coq_did(node._data_id)}{ktxt} "
             f"{H.coq_list(coq_rt(c, U) for c in (node._children or []))})")
 
 
@@ -79,6 +82,10 @@ def sibling_groups(shape, all_groups=False):
     return out
 
 
+# kinds of a typed case: neighbours differ / only the first sibling differs from the later ones
+KIND_PATTERNS = [lambda i, d, si: f"k{si % 2}", lambda i, d, si: "k0" if si == 0 else "k1"]
+
+
 def univ_for(n):
     out = []
     for i in range(n):
@@ -101,14 +108,17 @@ class Prop:
     case_vo = "theories/Cases/CaseC08.vo"
     run_fn = "run08"
     shard = 250
-    rule = ("plain trees; one case = tree x verdict per node from {True, False/None, SkipBranch()/SkipBranch(and_self=True), "
+    rule = ("plain Trees and TypedTrees; one case = tree x verdict per node from {True, False/None, SkipBranch()/SkipBranch(and_self=True), "
             "SkipBranch(and_self=False), SelectBranch, StopTraversal/StopIteration} x per-node flavour (returned or raised, class or instance) "
             "x start (whole tree or one node); every case runs Tree.filtered, Tree.copy(predicate=), Tree.filter or Node.filtered, "
             "Node.copy(predicate=), Node.copy(add_self=False, predicate=), Node.filter, logs every predicate call, and runs the same entry "
             "points without a predicate (plain copies, ValueError).  Data: (a) all data different, default data_ids; (b) TWINS: every pair "
             "of siblings carrying the same data object, or two distinct equal-comparing objects, under distinct explicit data_ids (int / "
             "str), so that node identity, data identity and data equality come apart and the twins get every pair of different answers; "
-            "(c) CLONES: every pair of non-sibling nodes carrying one data object (parent/child included = the region where D24 makes the "
+            "(d) TYPED: TypedTrees with kinds mixed among siblings (two patterns per shape; random kinds in the random tier), all "
+            "verdict assignments on small shapes plus a stop answer at every position of every shape of 3-4 (quick) / 4-5 (thorough) nodes; "
+            "the kinds of the copied nodes are observed and compared with the model (the scan re-creates nodes with the default kind "
+            "because add_child(n) is called without a kind, _add_from keeps kinds: a C07-family behaviour) but not judged by the C08 oracle; (c) CLONES: every pair of non-sibling nodes carrying one data object (parent/child included = the region where D24 makes the "
             "copying form raise).  quick: (a) every ordered forest <= 3 nodes x all 6^n verdict assignments x all starts, 4-5 nodes "
             "sampled per (shape, start); (b) 2 nodes exhaustive, 3-4 nodes sampled; (c) 2 nodes exhaustive, 3 sampled; 300 random trees "
             "of 6-14 nodes with clones.  thorough: (a) <= 4 nodes exhaustive, 5 sampled; (b) <= 3 exhaustive, 4 sampled; (c) <= 3 "
@@ -149,11 +159,14 @@ class Prop:
     )
 
     # ----- generation
-    def _desc(self, shape_nodes, n, verdicts, start, rng, univ=None):
+    def _desc(self, shape_nodes, n, verdicts, start, rng, univ=None, typed=False):
         fl = [rng.randrange(len(FLAVOURS[c])) for c in verdicts]
-        return dict(univ=univ or univ_for(n), nodes=shape_nodes, verdicts=list(verdicts), flavours=fl, start=start)
+        d = dict(univ=univ or univ_for(n), nodes=shape_nodes, verdicts=list(verdicts), flavours=fl, start=start)
+        if typed:
+            d["typed"] = True
+        return d
 
-    def _all_verdicts(self, nodes, n, rng, sample=None, univ=None):
+    def _all_verdicts(self, nodes, n, rng, sample=None, univ=None, typed=False):
         """one labelled forest x every start x every verdict assignment on the scope (or a sample of them)."""
         flat = flatten(nodes)
         # scope of each start: the descendants of the start node (pre-order indices)
@@ -169,7 +182,30 @@ class Prop:
                 vs = [V_FALSE] * n
                 for k, c in zip(scope, combo):
                     vs[k] = c
-                yield self._desc(nodes, n, vs, st, rng, univ)
+                yield self._desc(nodes, n, vs, st, rng, univ, typed)
+
+    def _typed(self, n, rng, sample=None):
+        """TypedTree, kinds mixed among siblings (TypedNode's sibling accessors are kind-aware): two kind patterns per shape
+        (neighbours differ / first sibling differs from all later ones) x every start x verdict assignments."""
+        for shape in H.forests(n):
+            for pat in KIND_PATTERNS:
+                nodes = B.shape_to_nodes(shape, lambda i, d, si, pat=pat: (i, pat(i, d, si), None))
+                yield from self._all_verdicts(nodes, n, rng, sample, typed=True)
+
+    def _typed_stop(self, n, rng, reps):
+        """TypedTree, mixed kinds: a stop answer at every position of every shape, the other answers mostly True/False so
+        that the stop is reached; whole tree and every branch start above the stopping node."""
+        for shape in H.forests(n):
+            for pat in KIND_PATTERNS:
+                nodes = B.shape_to_nodes(shape, lambda i, d, si, pat=pat: (i, pat(i, d, si), None))
+                flat = flatten(nodes)
+                for p in range(n):
+                    starts = [None] + [i for i in range(n) if p in flat[i][1]]
+                    for st in starts:
+                        for _ in range(reps):
+                            vs = rng.choices(range(6), weights=[4, 4, 0.5, 0.5, 0.5, 0], k=n)
+                            vs[p] = V_STOP
+                            yield self._desc(nodes, n, vs, st, rng, typed=True)
 
     def _exhaustive(self, n, rng, sample=None):
         for shape in H.forests(n):
@@ -221,13 +257,13 @@ class Prop:
             yield from self._exhaustive(n, rng)
         if tier == "quick":
             yield from self._exhaustive(4, rng, sample=30)
-            yield from self._exhaustive(5, rng, sample=6)
+            yield from self._exhaustive(5, rng, sample=4)
         else:
             yield from self._exhaustive(5, rng, sample=100)
         # equal-comparing siblings under distinct data_ids, clones in different parents: twins answered differently
         yield from self._twins(2, rng)
         if tier == "quick":
-            yield from self._twins(3, rng, sample=30)
+            yield from self._twins(3, rng, sample=24)
             yield from self._twins(4, rng, sample=4)
             yield from self._clones(2, rng)
             yield from self._clones(3, rng, sample=20)
@@ -237,6 +273,18 @@ class Prop:
             yield from self._clones(2, rng)
             yield from self._clones(3, rng)
             yield from self._clones(4, rng, sample=20)
+        # TypedTrees with mixed kinds among siblings (the kind-aware sibling accessors must not leak into the scans)
+        if tier == "quick":
+            yield from self._typed(2, rng)
+            yield from self._typed(3, rng, sample=15)
+            yield from self._typed_stop(3, rng, reps=2)
+            yield from self._typed_stop(4, rng, reps=1)
+        else:
+            yield from self._typed(2, rng)
+            yield from self._typed(3, rng)
+            yield from self._typed(4, rng, sample=40)
+            yield from self._typed_stop(4, rng, reps=4)
+            yield from self._typed_stop(5, rng, reps=1)
         nrand = 300 if tier == "quick" else 2000
         weights = [3, 4, 1, 1, 1, 0.4]
         for _ in range(nrand):
@@ -244,10 +292,14 @@ class Prop:
             shape = H.random_shape(rng, n, deep=rng.choice([0.2, 0.5, 0.8]))
             nodes = B.shape_to_nodes(shape, lambda i, d, s: (i, None, None))
             add_clones(nodes, rng)
+            typed = rng.random() < 0.35
+            if typed:
+                for nd_ in flatten_raw(nodes):
+                    nd_[1] = rng.choice(["k0", "k1", "k2"])
             vs = rng.choices(range(6), weights=weights, k=n)
             flat = flatten(nodes)
             cands = [i for i in range(n) if flat[i][1]]
-            yield self._desc(nodes, n, vs, rng.choice(cands) if cands and rng.random() < 0.5 else None, rng)
+            yield self._desc(nodes, n, vs, rng.choice(cands) if cands and rng.random() < 0.5 else None, rng, typed=typed)
 
     def shrink_candidates(self, desc):
         # drop a leaf / lift children (verdicts follow their nodes); then weaken verdicts to False
@@ -271,13 +323,13 @@ class Prop:
     # ----- one case
     def run(self, desc) -> Case:
         _BASE[0] = H.alloc_count()
-        tree, U = B.build(dict(typed=False, univ=desc["univ"], nodes=desc["nodes"]))
+        tree, U = B.build(dict(typed=bool(desc.get("typed")), univ=desc["univ"], nodes=desc["nodes"]))
         nodes = B.all_nodes(tree._root)
         vd = {nid(n): (desc["verdicts"][k], desc["flavours"][k]) for k, n in enumerate(nodes)}
         start = None if desc["start"] is None else nodes[desc["start"]]
         coq = (f"({coq_forest(tree._root, U)}, "
                f"{H.coq_list(f'({nid(n)}, {COQ_RAW[vd[nid(n)][0]][vd[nid(n)][1]]})' for n in nodes)}, "
-               f"{'(@None Z)' if start is None else H.coq_opt(nid(start))})")
+               f"{'(@None Z)' if start is None else H.coq_opt(nid(start))}, {H.coq_bool(bool(desc.get('typed')))})")
 
         # snapshot of the source by pointers, taken before anything runs
         snap = {id(n): list(n._children or []) for n in [tree._root] + nodes}
@@ -301,7 +353,8 @@ class Prop:
                 return [-1, H.err_class(e)], None, list(log)
 
             def go(n):
-                return [H.nid(n) - base, U.index(n._data), H.sx_did(n._data_id), [go(c) for c in (n._children or [])]]
+                return [H.nid(n) - base, U.index(n._data), H.sx_did(n._data_id), H.sx_kind(getattr(n, "kind", None)),
+                        [go(c) for c in (n._children or [])]]
 
             return [go(c) for c in (t2._root._children or [])], t2, list(log)
 
@@ -350,7 +403,7 @@ class Prop:
                     nontrivial=0 < info["kept"] < nsc,
                     key=H.digest([shape_shape(desc["nodes"]), labels(desc["nodes"]), desc["verdicts"], desc["start"]]),
                     stats=dict(nodes=len(nodes), scope=nsc, kept=info["kept"], stop_hit=info["stop_hit"],
-                               start="tree" if start is None else "node", d24_leaves=info["d24"], d24_collision=info["d24_collision"],
+                               start="tree" if start is None else "node", typed=bool(desc.get("typed")), d24_leaves=info["d24"], d24_collision=info["d24_collision"],
                                raised=sum(1 for k in range(len(nodes)) if desc["flavours"][k] in RAISED.get(desc["verdicts"][k], ()))))
 
     # ----- the property statement, executed on the pointer snapshot (not F's recursion)
@@ -443,7 +496,7 @@ class Prop:
             return out
 
         def strip(o):
-            return [[x[1], x[2], strip(x[3])] for x in o]
+            return [[x[1], x[2], strip(x[4])] for x in o]      # node identity and kind are not part of the statement
 
         def wrap(k, body):
             if start is not None and k < 2:     # add_self=True: the start node itself on top
@@ -549,7 +602,7 @@ def flatten_raw(nodes):
 
 
 def labels(nodes):
-    return [[n[0], n[2]] for n in flatten_raw(nodes)]
+    return [[n[0], n[1], n[2]] for n in flatten_raw(nodes)]
 
 
 def tag_nodes(nodes):
